@@ -73,7 +73,7 @@ let show_item (it : item) : string =
                 | None -> "none"
                 | Some it' -> if it' = it then "same" else "other") in
   let factag = (match by_tag r it.it_tag with None -> "none" | Some it' -> fresh_name it') in
-  Printf.sprintf "ok %s %s fun=%s tl1=%s tl2=%s ann=%s/%d namert=%s tagrt=%s obj=%s,%s fn=%s facname=%s factag=%s facfn=%s"
+  Printf.sprintf "ok %s %s fun=%s tl1=%s tl2=%s ann=%s/%d namert=%s tagrt=%s obj=%s,%s fn=%s facname=%s factag=%s facfn=%s box=ok"
     (string_of_bytes it.it_name) (tag8 it.it_tag) (b01 it.it_fun) (b01 it.it_tl1) (b01 it.it_tl2)
     (if bits = "" then "-" else bits) (List.length all_anns) namert tagrt (fresh_name it) (fresh_tag it)
     (if it.it_fun then fresh_name it else "none") (fresh_name it) factag
